@@ -5,6 +5,7 @@ import glob, json, os, shutil
 root = os.path.dirname(os.path.dirname(os.path.abspath(__file__)))
 pend = os.path.join(root, "seeded", "_pending")
 summary = []
+notes = json.load(open(os.path.join(root, "seeded", "notes.json")))
 for d in sorted(glob.glob(os.path.join(pend, "C*"))):
     pid = os.path.basename(d)
     for mf in sorted(glob.glob(os.path.join(d, "meta_*.json"))):
@@ -38,7 +39,7 @@ for d in sorted(glob.glob(os.path.join(pend, "C*"))):
             "caught_by": sorted(p for p, c in caught.items() if c),
             "missed_by": sorted(p for p, c in caught.items() if not c),
             "first_violation": {p: c.get("first") for p, c in aud.get("checks", {}).items() if c.get("caught")},
-            "notes": prev.get("notes", ""),
+            "notes": notes.get(f"{pid}_{i}", prev.get("notes", "")),
         }
         json.dump(m, open(os.path.join(out, "meta.json"), "w"), indent=1)
         summary.append((f"{pid}_{i}", "kept", m["caught_by"], m["missed_by"], aud.get("patch_applies")))
